@@ -12,41 +12,47 @@ namespace Proofs.Mvp60Sl
 open Model Model.Mvp60
 open Model.Seq (App Halt Arch stepArch runMvp1 mvp1Fetch)
 
-theorem cycle_sim (app : App) (hp : Prog app) (a0 : Arch) (s s' : State) (a : Arch) (k : Nat) (ev : Event)
-    (hk : Proofs.Mvp4.seqIter app k a0 = some a) (hr : Rel app s a) (h : cycle app s = (s', ev)) :
+theorem cycle_simR (app : App) (hp : ProgR app) (a0 : Arch) (s s' : State) (a : Arch) (k : Nat) (ev : Event)
+    (hk : Proofs.Mvp4.seqIter app k a0 = some a) (hr : Rel app s a ∨ RelB app s a) (h : cycle app s = (s', ev)) :
     TickPost app a0 s' ev := by
   unfold cycle at h
   split at h
   · rename_i r hr'
     subst h
-    exact cycleM_sim app hp a0 s _ a k _ hk hr hr'
+    exact cycleM_simR app hp a0 s _ a k _ hk hr hr'
   · simp only [Prod.mk.injEq] at h; obtain ⟨rfl, rfl⟩ := h; trivial
   · simp only [Prod.mk.injEq] at h; obtain ⟨rfl, rfl⟩ := h; trivial
+
+theorem cycle_sim (app : App) (hp : Prog app) (a0 : Arch) (s s' : State) (a : Arch) (k : Nat) (ev : Event)
+    (hk : Proofs.Mvp4.seqIter app k a0 = some a) (hr : Rel app s a) (h : cycle app s = (s', ev)) :
+    TickPost app a0 s' ev :=
+  cycle_simR app hp.toR a0 s s' a k ev hk (Or.inl hr) h
 
 /-- what a finished run has to do with the unpipelined run from `a0` -/
 def RunPost (app : App) (a0 : Arch) (r : Result) : Prop :=
   match r.halt with
   | some .offEnd => ∃ k a, Proofs.Mvp4.seqIter app k a0 = some a ∧ (∃ c, stepArch Proofs.Mvp4.dc app a = .halt .offEnd c) ∧
       r.final.ctx.Registers = a.ctx.Registers ∧ r.final.ctx.Memory = a.ctx.Memory
+  | some .ret => ∃ k a, Proofs.Mvp4.seqIter app k a0 = some a ∧ (∃ c, stepArch Proofs.Mvp4.dc app a = .halt .ret c) ∧
+      r.final.ctx.Registers = a.ctx.Registers ∧ r.final.ctx.Memory = a.ctx.Memory
   | some .err => ∃ k a, Proofs.Mvp4.seqIter app k a0 = some a ∧ ∃ c, stepArch Proofs.Mvp4.dc app a = .halt .err c
-  | some .ret => False
   | _ => True
 
-theorem runFrom_sim (app : App) (hp : Prog app) (a0 : Arch) : ∀ (fuel : Nat) (s : State) (n k : Nat) (a : Arch),
-    Proofs.Mvp4.seqIter app k a0 = some a → Rel app s a → RunPost app a0 (runFrom app fuel s n)
+theorem runFrom_sim (app : App) (hp : ProgR app) (a0 : Arch) : ∀ (fuel : Nat) (s : State) (n k : Nat) (a : Arch),
+    Proofs.Mvp4.seqIter app k a0 = some a → (Rel app s a ∨ RelB app s a) → RunPost app a0 (runFrom app fuel s n)
   | 0, s, n, k, a, _, _ => by simp [runFrom, RunPost]
   | fuel + 1, s, n, k, a, hk, hr => by
     unfold runFrom
     cases hc : cycle app s with
     | mk s' ev =>
-      have hpost := cycle_sim app hp a0 s s' a k ev hk hr hc
+      have hpost := cycle_simR app hp a0 s s' a k ev hk hr hc
       cases ev with
       | running =>
         obtain ⟨k', a', hk', hr'⟩ := hpost
         exact runFrom_sim app hp a0 fuel s' (n + 1) k' a' hk' hr'
       | done h =>
         cases h with
-        | ret => exact hpost.elim
+        | ret => exact hpost
         | offEnd => exact hpost
         | err => exact hpost
         | panic w => trivial
@@ -64,8 +70,9 @@ theorem init_rel (app : App) (ctx : Model.Context) (hc : CtxOk ctx) (eu wu : Nat
   obtain ⟨u, hu, hl⟩ := new_ok
   refine ⟨{ ctx := ctx, mmu := u, eus := List.replicate eu {}, wus := List.replicate wu {} }, ?_, ?_⟩
   · simp only [init, hu, bind, Except.bind, pure, Except.pure]
-  · refine ⟨⟨0, rfl, ?_⟩, ?_, ?_, ?_, rfl, Nat.zero_le _, Nat.zero_le _, ?_, rfl, rfl, rfl, Nat.zero_le _, ?_, Nat.zero_le _, hl, rfl⟩
-    · refine ⟨trivial, Nat.zero_le _, ⟨0, trivial, rfl, Or.inl rfl, ?_, ?_, ?_, ?_⟩, rfl, rfl, rfl, rfl⟩
+  · refine ⟨⟨0, rfl, ?_⟩, ?_, ?_, ?_, rfl, Nat.zero_le _, Nat.zero_le _, ?_, rfl, rfl, rfl, Nat.zero_le _, ?_, Nat.zero_le _, hl, rfl,
+      (fun _ x hx => by cases hx), (fun e he => by cases he)⟩
+    · refine ⟨trivial, Nat.zero_le _, ⟨0, trivial, rfl, Or.inl rfl, ?_, ?_, ?_, ?_⟩, rfl, rfl, rfl⟩
       · show 0 + 0 + 0 ≤ app.instrs.length + 2; omega
       · intro _; exact Nat.zero_le _
       · intro _; exact Nat.zero_le _
@@ -80,11 +87,11 @@ theorem init_rel (app : App) (ctx : Model.Context) (hc : CtxOk ctx) (eu wu : Nat
     · intro e he; cases he
     · simp only [List.length_replicate, hk]
 
-/-- **MVP-6.0 refines the unpipelined machine on straight-line register-only programs**, for every number `K` of
-execute and write units, every installable initial context and every tick budget: if the run of the model ends (past the
-last instruction, or with the defined error of a `div`/`rem` by zero), MVP-1 ends the same way, and the final register
-file and memory of the model are literally those of MVP-1.  (It never ends with `ret`: the class has none.) -/
-theorem mvp60_sl_refines_mvp1 (app : App) (hp : Prog app) (ctx : Model.Context) (hc : CtxOk ctx) (K fuel : Nat) (hk : Halt)
+/-- **MVP-6.0 refines the unpipelined machine on straight-line register-only programs that may `ret`**, for every number
+`K` of execute and write units, every installable initial context and every tick budget: if the run of the model ends (with
+`ret`, past the last instruction, or with the defined error of a `div`/`rem` by zero), MVP-1 ends the same way, and the final
+register file and memory of the model are literally those of MVP-1. -/
+theorem mvp60_slr_refines_mvp1 (app : App) (hp : ProgR app) (ctx : Model.Context) (hc : CtxOk ctx) (K fuel : Nat) (hk : Halt)
     (hh : (run app ctx K K fuel).halt = some hk) (hnp : ∀ w, hk ≠ .panic w) :
     ∃ n, (runMvp1 app ⟨ctx, 0#32⟩ n).halt = some hk ∧
       (hk ≠ .err →
@@ -93,11 +100,14 @@ theorem mvp60_sl_refines_mvp1 (app : App) (hp : Prog app) (ctx : Model.Context) 
   obtain ⟨s0, hinit, hR⟩ := init_rel app ctx hc K K rfl
   have hrun : run app ctx K K fuel = runFrom app fuel s0 0 := by unfold run; rw [hinit]
   rw [hrun] at hh ⊢
-  have hpost := runFrom_sim app hp ⟨ctx, 0#32⟩ fuel s0 0 0 ⟨ctx, 0#32⟩ rfl hR
+  have hpost := runFrom_sim app hp ⟨ctx, 0#32⟩ fuel s0 0 0 ⟨ctx, 0#32⟩ rfl (Or.inl hR)
   unfold RunPost at hpost
   rw [hh] at hpost
   cases hk with
-  | ret => exact hpost.elim
+  | ret =>
+    obtain ⟨k, a, hit, ⟨c, hs⟩, hf1, hf2⟩ := hpost
+    obtain ⟨h1, h2⟩ := Proofs.Mvp4.run_halts mvp1Fetch app hit hs 0
+    exact ⟨k + (0 + 1), h1, fun _ => by unfold runMvp1; rw [h2]; exact ⟨hf1, hf2⟩⟩
   | offEnd =>
     obtain ⟨k, a, hit, ⟨c, hs⟩, hf1, hf2⟩ := hpost
     obtain ⟨h1, h2⟩ := Proofs.Mvp4.run_halts mvp1Fetch app hit hs 0
@@ -107,5 +117,14 @@ theorem mvp60_sl_refines_mvp1 (app : App) (hp : Prog app) (ctx : Model.Context) 
     obtain ⟨h1, _⟩ := Proofs.Mvp4.run_halts mvp1Fetch app hit hs 0
     exact ⟨k + (0 + 1), h1, fun hne => absurd rfl hne⟩
   | panic w => exact absurd rfl (hnp w)
+
+/-- the statement of package R60 (programs without `ret`) -/
+theorem mvp60_sl_refines_mvp1 (app : App) (hp : Prog app) (ctx : Model.Context) (hc : CtxOk ctx) (K fuel : Nat) (hk : Halt)
+    (hh : (run app ctx K K fuel).halt = some hk) (hnp : ∀ w, hk ≠ .panic w) :
+    ∃ n, (runMvp1 app ⟨ctx, 0#32⟩ n).halt = some hk ∧
+      (hk ≠ .err →
+        (run app ctx K K fuel).final.ctx.Registers = (runMvp1 app ⟨ctx, 0#32⟩ n).final.ctx.Registers ∧
+        (run app ctx K K fuel).final.ctx.Memory = (runMvp1 app ⟨ctx, 0#32⟩ n).final.ctx.Memory) :=
+  mvp60_slr_refines_mvp1 app hp.toR ctx hc K fuel hk hh hnp
 
 end Proofs.Mvp60Sl
